@@ -9,8 +9,8 @@ ALL = ["C%02d" % i for i in range(1, 21)]
 E_IN = "bounded-exhaustive input-space exploration of the real code against a brute-force reference model"
 CHECKS = {
     "C01": dict(cat="exploration", tech=E_IN, ref="DESIGN.md 4/C01",
-                text="Every strongly consistent base of the named finite scopes (all 1-conditional bases over the 16 truth functions of 2 atoms, structure representatives of all pairs, one representative of every conditional structure of <=4 literal conditionals over 3 atoms) x completely enumerated query sets is run through InferenceManager('p-entailment') and compared with the tolerance definition evaluated by brute force over worlds.",
-                note="Trusted: vf/ref.py (self-tested in setup against 'accepted by every ranking model'). Nothing is claimed outside the scopes (<=3 atoms + one foreign atom, <=4 conditionals)."),
+                text="Every strongly consistent base of the named finite scopes (all 1-conditional bases over the 16 truth functions of 2 atoms, structure representatives of all pairs, one representative of every conditional structure of <=4 literal conditionals over 3 atoms, of <=4-subsets of a 12-element chain/bridge alphabet over 4 atoms, bases with duplicated conditionals, non-contiguous keys, label-only texts, DEBUG logging on for a slice) x completely enumerated query sets (incl. the reference-selected tie-rich ones) is run through InferenceManager('p-entailment') and compared with the tolerance definition evaluated by brute force over worlds.",
+                note="Trusted: vf/ref.py (self-tested in setup against 'accepted by every ranking model'). Nothing is claimed outside the scopes (<=4 atoms + one foreign atom, <=4 conditionals)."),
     "C02": dict(cat="exploration", tech=E_IN, ref="DESIGN.md 4/C02",
                 text="Same scopes as C01 through InferenceManager('system-z'); oracle is the Z-rank comparison by brute force; partition depths 1..3 are all reached (counted in the evidence).",
                 note="Trusted: vf/ref.py. Nothing is claimed outside the scopes."),
